@@ -263,6 +263,19 @@ func generate(repo, workDir, injectDir string, enableOSShim, rewrite bool, name 
 			// package's knobs applied, the second for all others (a tree
 			// where the declaration reads differently, or the inject-only
 			// overlay of the race configuration)
+			// <name>.shim / <name>.noshim: variants for builds with and
+			// without the import-path shims (the race configuration links
+			// the real sync and go4.org/syncutil)
+			if strings.HasSuffix(path, ".shim") || strings.HasSuffix(path, ".noshim") {
+				if rewrite != strings.HasSuffix(path, ".shim") {
+					return nil
+				}
+				base := strings.TrimSuffix(strings.TrimSuffix(filepath.Base(rel), ".shim"), ".noshim")
+				target := filepath.Join(repo, filepath.Dir(rel), "zz_verif_"+base+".go")
+				replace[target] = path
+				st.Injected++
+				return nil
+			}
 			if strings.HasSuffix(path, ".on") || strings.HasSuffix(path, ".off") {
 				on := false
 				for f := range rewritten {
